@@ -4,6 +4,7 @@
 //!        simlab --replay <file>
 
 mod core;
+mod fclass;
 mod lowprops;
 mod mclass;
 mod refsim;
@@ -11,6 +12,7 @@ mod runner;
 mod sclass;
 mod sprops;
 
+use fclass::*;
 use lowprops::*;
 use mclass::*;
 use runner::*;
@@ -118,6 +120,24 @@ fn m_subs(prop: &'static str) -> Vec<(MSub, u32, u32, usize)> {
     }
 }
 
+fn f_subs(prop: &'static str) -> Vec<(FSub, u32, u32, usize)> {
+    let f = |name: &'static str, mt: Option<u8>, spin: bool| FSub { name, prop, mt, spin };
+    match prop {
+        "C11" => vec![
+            (f("c11-faults-st", None, false), 40_000, 800_000, 16),
+            (f("c11-faults-mt", Some(4), false), 4000, 80_000, 4),
+            (f("c11-timeout-st", None, true), 48, 400, 16),
+            (f("c11-timeout-mt", Some(4), true), 32, 300, 16),
+        ],
+        "C19" => vec![
+            (f("c19-drop-st", None, false), 40_000, 800_000, 16),
+            (f("c19-drop-mt", Some(4), false), 5000, 100_000, 4),
+            (f("c19-drop-mt8", Some(8), false), 1000, 20_000, 2),
+        ],
+        _ => vec![],
+    }
+}
+
 fn rule_for(prop: &str) -> &'static str {
     match prop {
         "C01" => "cases = proptest-generated class-S benches (1-4 scripted models, event sources) + 3-40 driver commands, each executed on the real Simulation and judged by the sequential reference simulator RefSim; non-trivial = >=2 distinct deadlines fired AND (a handler scheduled an event due inside a running step_until window OR a step_until target fell strictly between two deadlines OR same-deadline events on >=2 models); distinct = hash of the JSON case",
@@ -168,6 +188,14 @@ fn run_property(prop: &'static str, tier: &str, seed: u64) -> i32 {
                 ctx.run(&SinkSub, n, 16);
             }
         }
+        "C11" | "C19" => {
+            core::set_delay_mode(1, seed);
+            for (s, q, t, w) in f_subs(prop) {
+                let n = ctx.n(q, t);
+                ctx.run(&s, n, w);
+            }
+            core::set_delay_mode(0, seed);
+        }
         "C20" => {
             let n = ctx.n(150_000, 4_000_000);
             ctx.run(&PqSub, n, 16);
@@ -207,8 +235,8 @@ fn replay(path: &str) -> i32 {
     let prop = v["property"].as_str().unwrap_or("").to_string();
     let sub = v["sub"].as_str().unwrap_or("").to_string();
     let case = &v["case"];
-    let props: [&'static str; 15] = [
-        "C01", "C07", "C08", "C09", "C10", "C18", "C02", "C03", "C04", "C05", "C06", "C14", "C16", "C17", "C20",
+    let props: [&'static str; 17] = [
+        "C01", "C07", "C08", "C09", "C10", "C18", "C02", "C03", "C04", "C05", "C06", "C14", "C16", "C17", "C20", "C11", "C19",
     ];
     core::set_delay_mode(1, 1);
     for p in props {
@@ -221,6 +249,11 @@ fn replay(path: &str) -> i32 {
             }
         }
         for (s, _, _, _) in s_subs(p) {
+            if s.name == sub {
+                return replay_one(&s, p, case, path);
+            }
+        }
+        for (s, _, _, _) in f_subs(p) {
             if s.name == sub {
                 return replay_one(&s, p, case, path);
             }
